@@ -21,6 +21,9 @@ type Stream struct {
 	Name    string
 	Closed  atomic.Int32
 	OnClose func()
+	// CloseErr, if set, is what Close returns (the stream still counts as
+	// closed: e.g. the peer had already reset it, or the final flush failed).
+	CloseErr error
 	ReadFn  func(b []byte) (int, error)
 	WriteFn func(b []byte) (int, error)
 }
@@ -46,7 +49,7 @@ func (s *Stream) Close() error {
 	if s.OnClose != nil {
 		s.OnClose()
 	}
-	return nil
+	return s.CloseErr
 }
 
 var _ stream.Stream = (*Stream)(nil)
